@@ -671,9 +671,9 @@ func TestVerif_C16(t *testing.T) {
 	r.CasesParallel("flood", r.N(36, 600), 0, func(c *verifrt.Case) {
 		vsrvC16Session(r, c, "flood:"+vsrvC16FloodKinds[c.Index%len(vsrvC16FloodKinds)])
 	})
-	r.Require("serve_loop_samples", 500)
-	r.Require("probe_ping_answered", 50)
-	r.Require("server_goaway", 200)
+	r.Require("serve_loop_samples", 200)
+	r.Require("probe_ping_answered", 40)
+	r.Require("server_goaway", 100)
 	r.Require("handler_starts", 300)
 	r.Require("floods_with_over_1000_queued_control_frames_sampled", 2)
 	r.Require("outcome_closed after input + timers", 100)
